@@ -286,10 +286,10 @@ func (x *fnv) checkPost(st *State, fr *frame, paramVals map[string]Value, idx in
 		if mf.Arity == 2 {
 			ix = c.Fresh("fr_idx", SInt)
 		}
-		pre := []*Term{c.Le(ref, x.entry.allocTop), c.Ge(ref, c.Int(0))}
+		pre := []*Term{c.Le(x.ownerOf(rn, ref), x.entry.allocTop), c.Ge(ref, c.Int(0))}
 		for _, tg := range targets {
 			if regionHasPrefix(rn, tg.prefix) {
-				pre = append(pre, c.Not(tg.match(ref, ix)))
+				pre = append(pre, c.Not(x.matchIn(tg, rn, ref, ix)))
 			}
 		}
 		g := c.Implies(c.And(pre...), c.Eq(c.Read(mf, ref, ix), c.Read(m0, ref, ix)))
@@ -318,7 +318,7 @@ func (x *fnv) runDefers(s *State, fr *frame) {
 }
 
 // runAts applies the at-clauses attached to a call of the named callee.
-func (x *fnv) runAts(s *State, callee string, call *ast.CallExpr, after bool, results []Value) {
+func (x *fnv) runAts(s *State, callee string, call *ast.CallExpr, after bool, results []Value, args []Value) {
 	if x.fc == nil || len(x.fc.Ats) == 0 {
 		return
 	}
@@ -331,6 +331,9 @@ func (x *fnv) runAts(s *State, callee string, call *ast.CallExpr, after bool, re
 		x.atDone[at]++
 		env := x.newSpecEnv(s, x.entry, x.pkg.PkgPath)
 		x.bindLocals(env, nil)
+		for i, a := range args {
+			env.vars[fmt.Sprintf("arg%d", i)] = a
+		}
 		if after {
 			for i, r := range results {
 				env.vars[fmt.Sprintf("result%d", i)] = r
@@ -355,6 +358,12 @@ func (x *fnv) runAts(s *State, callee string, call *ast.CallExpr, after bool, re
 		case "assume":
 			x.assumeNote("assumed at call " + callee + ": " + at.Clause.Src)
 			s.Assume(env.assumption(at.Clause.Expr))
+		case "gadd":
+			v := env.eval(at.Clause.Expr)
+			rn := "GHOST|" + at.Ghost
+			x.h.schema[rn] = []regionSchema{{rn, 1, SBool}}
+			m := x.h.region(s, rn, 1, SBool)
+			s.mem[rn] = x.c.Store(m, v.Term, nil, x.c.True())
 		case "ghost":
 			old, ok := s.ghost[at.Ghost]
 			if !ok {
